@@ -6,7 +6,12 @@ import json, os, shutil, subprocess, sys, time
 prop = sys.argv[1]
 ks = [int(x) for x in sys.argv[2:]] or [1, 2, 3]
 OUT = f"/tmp/seed_{prop}_out"
-REPO = "/repo"
+REPO = "/root/work/seed_repo"     # a clone of /repo: other work in this sandbox keeps using /repo undisturbed
+if not os.path.isdir(REPO):
+    subprocess.run(["git", "clone", "-q", "/repo", REPO], check=True)
+LEAN = "/root/work/seed_lean"      # own copy of the Lean project (translators rewrite Gen/*.lean)
+subprocess.run(f"mkdir -p {LEAN} && rsync -a --delete /verif/lean/ {LEAN}/", shell=True, check=True)
+subprocess.run(f"git -C {REPO} fetch -q /repo HEAD && git -C {REPO} reset -q --hard FETCH_HEAD && git -C {REPO} clean -fdq", shell=True, check=True)
 
 def sh(cmd, timeout=900, env=None, cwd=None):
     e = dict(os.environ); e.update(env or {})
@@ -44,12 +49,12 @@ for k in ks:
     try:
         rc1, o1 = sh(f"PYTHONPATH={REPO}/src /venv/bin/python {dst}/demo.py", timeout=300)
         res["demo_patched_exit"] = rc1
-        rcb, ob = sh(f"cd {REPO} && /venv/bin/python -m pytest -q -p no:cacheprovider --timeout=900 --continue-on-collection-errors 2>&1 | tail -1", timeout=900)
+        rcb, ob = sh(f"cd {REPO} && PYTHONPATH={REPO}/src /venv/bin/python -m pytest -q -p no:cacheprovider --timeout=900 tests/earthkit_workflows --ignore=tests/earthkit_workflows/backends/test_earthkit.py 2>&1 | tail -1", timeout=900)
         res["baseline_patched"] = ob.strip()[-120:]
         checks = {}
         for seed in (0, 1):
             t = time.time()
-            rcc, oc = sh(f"cd /verif && VERIF_SEED={seed} ./check {prop} --tier quick", timeout=1500)
+            rcc, oc = sh(f"cd /verif && EKW_EVIDENCE_DIR=/root/work/seed_evidence EKW_LEAN_DIR={LEAN} EKW_REPO={REPO} VERIF_SEED={seed} ./check {prop} --tier quick", timeout=1500)
             lines = [l for l in oc.splitlines() if l.startswith("VIOLATION") or l.startswith("[" + prop)]
             checks[str(seed)] = {"exit": rcc, "lines": [l[:300] for l in lines][:6], "wall_s": round(time.time() - t, 1)}
             # keep the first replay for the record
